@@ -61,6 +61,39 @@ def handle (op : String) (args : List Val) : Option Val :=
   | "c11.drive", [v] => do
     let v ← v.toRats?
     some (Val.ofRats (drive v))
+  | "c11.adm_uniform", [l, v] => do
+    let l ← l.toNat?; let v ← v.toRats?
+    if l < 2 ∨ v.isEmpty then some (.sym "err") else
+    some (.list ((admUniform l v).map fun p => Val.ofRats [p.1, p.2]))
+  | "c11.adm_binary", [v] => do
+    let v ← v.toRats?
+    if v.isEmpty then some (.sym "err") else
+    some (.list ((admBinary v).map fun p => Val.ofRats [p.1, p.2]))
+  | "c11.adm_tern", [sigma, v] => do
+    let sigma ← sigma.toRat?; let v ← v.toRats?
+    if v.isEmpty ∨ sigma < 0 then some (.sym "err") else
+    some (.list ((admTern sigma v).map fun p => Val.ofRats [p.1, p.2]))
+  | "c11.wmean", [clients] => do
+    let clients ← toClients? clients
+    some (ofOptTree (treeMean clients))
+  | "c11.account", [kind, l, rounds] => do
+    -- bit accounting and aggregate shape of a history; they do not depend on the draws, so the
+    -- draws are a constant dummy (long enough for every leaf; `zipWith` truncates)
+    let kind ← kind.toSym?; let l ← l.toNat?
+    let rounds ← (← rounds.toList?).mapM toClients?
+    let draw : Path → List Rat := fun _ => List.replicate 4096 0
+    let st := initState []
+    let ofR (r : Option Tree × CState) : Val :=
+      .list [Val.ofBool r.1.isNone, Val.ofNat r.2.logBits, Val.ofNat r.2.constBits,
+             Val.ofNats ((r.1.getD []).map List.length)]
+    match kind with
+    | "uniform" => if l < 2 then some (.sym "err") else
+      some (.list ((history (uniformRound l draw) st rounds).map ofR))
+    | "rotated" => if l < 2 then some (.sym "err") else
+      some (.list ((history (rotatedRound l draw) st rounds).map ofR))
+    | "tern" => some (.list ((history (ternRound draw fun _ => 0) st rounds).map ofR))
+    | "drive" => some (.list ((history (driveRound draw) st rounds).map ofR))
+    | _ => some (.sym "err")
   | "c11.rotu", [signs, x] => do
     let signs ← signs.toRats?; let x ← x.toRats?
     if x.isEmpty then some (.sym "err") else
